@@ -31,8 +31,26 @@ from .tlc import MachineryError
 GRID = [Fraction(-1), Fraction(0), Fraction(1, 2), Fraction(1), Fraction(2), Fraction(3)]
 
 # functions in and just outside the supported subset; written to a real module so that their source is retrievable
+CORPUS2_SRC = '''
+GAIN = 0.5
+OFFSET = 1.0
+
+
+def gain(v):
+    return v * GAIN + OFFSET
+
+
+def gated(v):
+    return v if v > GAIN else GAIN
+'''
+
+# module constants re-bound between two translations (history: translate, re-bind, translate again)
+REBIND = {"c06corpus": {"SCALE": 5.0}, "c06corpus2": {"GAIN": 3.0, "OFFSET": -2.0}}
+
 CORPUS_SRC = '''
 import math
+
+import c06corpus2
 
 SCALE = 2.0
 
@@ -184,6 +202,48 @@ def try_block(a, b):
     return r
 
 
+def chained_param(x, hi):
+    lo = hi = x * 2.0
+    return lo + 3.0 * hi
+
+
+def chained_in_branch(s, k):
+    if s > k:
+        s = k = s - k
+    return s + 2.0 * k
+
+
+def chained_local(x, y):
+    t = x + y
+    u = t = x * y
+    return u + 10.0 * t
+
+
+def chained_three(a, b):
+    y = 1.0
+    z = y = b = a + 2.0
+    return z + 10.0 * y + 100.0 * b
+
+
+def chained_fresh(a):
+    y = z = a * 3.0
+    return y - z + a
+
+
+def scaled(a):
+    return a * SCALE
+
+
+def scale_gate(x):
+    if x > SCALE:
+        return x - SCALE
+    return SCALE
+
+
+def via_other_module(a, b):
+    return c06corpus2.gain(a) + b * SCALE
+
+
 def early_none(x):
     if x > 1:
         return x
@@ -224,15 +284,25 @@ def _nested_functions(path: Path, work: Path, modname: str) -> list:
     return [getattr(mod, n) for n in names + [n for n, _ in nested]]
 
 
+def corpus_functions(ctx: Ctx) -> list[tuple[str, object]]:
+    d = ctx.work / "oracle_mods"
+    if "c06corpus" not in sys.modules:
+        render.write_module(d, "c06corpus2", CORPUS2_SRC)
+        render.write_module(d, "c06corpus", CORPUS_SRC)
+    out = []
+    for mn in ("c06corpus2", "c06corpus"):
+        mod = render.load_module(d, mn)
+        out += [("corpus", f) for n, f in vars(mod).items() if callable(f) and getattr(f, "__module__", "") == mn]
+    return out
+
+
 def collect(ctx: Ctx) -> list[tuple[str, object]]:
     out = []
     import mxlpy.fns as fns
 
     out += [("mxlpy.fns", getattr(fns, n)) for n in fns.__all__ if callable(getattr(fns, n))]
     d = ctx.work / "oracle_mods"
-    render.write_module(d, "c06corpus", CORPUS_SRC)
-    corpus = render.load_module(d, "c06corpus")
-    out += [("corpus", f) for n, f in vars(corpus).items() if callable(f) and getattr(f, "__module__", "") == "c06corpus"]
+    out += corpus_functions(ctx)
     tests = repo_root() / "tests"
     if (tests / "test_sympy.py").exists():
         try:
@@ -268,7 +338,14 @@ def _exact_value(expr, subs):
     return render.to_json_value(render.SKIP), (kind, v)
 
 
-def outside_subset_check(ctx: Ctx, rep: Report, fns: list) -> dict:
+def _plain(v):
+    """numpy scalars -> Python scalars (np.less returns np.bool_)."""
+    if type(v).__module__ == "numpy" and getattr(v, "shape", None) == ():
+        return v.item()
+    return v
+
+
+def outside_subset_check(ctx: Ctx, rep: Report, fns: list, grid: list | None = None, what: str = "outside_spec_subset") -> dict:
     import inspect
 
     import sympy
@@ -293,16 +370,18 @@ def outside_subset_check(ctx: Ctx, rep: Report, fns: list) -> dict:
             continue
         st["translated"] += 1
         bad = []
-        for p in itertools.product(GRID, repeat=len(params)):
+        for p in itertools.product(grid or GRID, repeat=len(params)):
             o = render.py_outcome(fn, [float(x) for x in p])
-            if o["st"] != "ret" or isinstance(o["v"], bool) or not isinstance(o["v"], (int, float)):
+            o["v"] = _plain(o["v"])
+            if o["st"] != "ret" or not isinstance(o["v"], (bool, int, float)) or o["v"] != o["v"] \
+                    or abs(o["v"]) == float("inf"):
                 continue
             st["points"] += 1
             subs = {sympy.Symbol(n): v for n, v in zip(params, p, strict=True)}
             if not (agrees(sym_value(expr, subs, exact=False), o["v"]) or agrees(sym_value(expr, subs, exact=True), o["v"])):
                 bad.append({"point": [str(x) for x in p], "cpython": o["v"], "expression_value": str(sym_value(expr, subs, exact=False)[1])})
         if bad:
-            rep.mismatch({"oracle": True, "outside_spec_subset": True, "function": f"{origin}:{fn.__name__}",
+            rep.mismatch({"oracle": True, what: True, "function": f"{origin}:{fn.__name__}",
                           "source": textwrap.dedent(inspect.getsource(fn))},
                          {"expression": str(expr)[:300], "bad_points": len(bad), "first_bad_points": bad[:3]}, None)
         else:
@@ -310,14 +389,14 @@ def outside_subset_check(ctx: Ctx, rep: Report, fns: list) -> dict:
     return st
 
 
-def run_oracle(ctx: Ctx, rep: Report) -> None:
+def oracle_pass(ctx: Ctx, rep: Report, fns: list, phase: str, min_encoded: int) -> dict:
+    """Encode, let TLC evaluate, cross-check with CPython, translate, let TLC judge.  ``phase`` labels ids / files."""
     import sympy
     from mxlpy.meta.source_tools import fn_to_sympy
 
     from .props.c06 import agrees, sym_value
 
     rnd = random.Random(ctx.seed)
-    fns = collect(ctx)
     stats = {"functions": len(fns), "encoded": 0, "outside_subset": {}, "refused": 0, "records": 0, "accepted": 0,
              "points": 0, "undefined_or_skipped_points": 0}
     cases, meta = [], {}
@@ -325,16 +404,16 @@ def run_oracle(ctx: Ctx, rep: Report) -> None:
         try:
             enc = pyenc.encode_function(fn)
         except pyenc.OutsideSubset as e:
-            stats["outside_subset"][f"{origin}:{fn.__name__}"] = str(e)
+            stats["outside_subset"][f"{phase}{origin}:{fn.__name__}"] = str(e)
             continue
         except (OSError, TypeError, SyntaxError) as e:
-            stats["outside_subset"][f"{origin}:{fn.__name__}"] = f"no source: {e}"
+            stats["outside_subset"][f"{phase}{origin}:{fn.__name__}"] = f"no source: {e}"
             continue
         stats["encoded"] += 1
         pts = _points(len(enc["params"]), rnd)
         ft = dict(enc["ft"])
         ft["__none"] = {"k": "const", "v": {"n": 0, "d": 1}}
-        cid = f"{origin}:{fn.__name__}"
+        cid = f"{phase}{origin}:{fn.__name__}"
         meta[cid] = {"fn": fn, "enc": enc, "pts": pts, "origin": origin}
         cases.append({"id": cid, "params": enc["params"], "body": enc["body"], "ft": ft,
                       "pts": [[render.to_json_value(v) for v in p] for p in pts]})
@@ -342,13 +421,13 @@ def run_oracle(ctx: Ctx, rep: Report) -> None:
     # assignment ...): the function's value is by definition what CPython computes, so fn_to_sympy must refuse
     # them or be right; here CPython, not TLC, supplies the expected value (supplementary, stated in the evidence)
     stats["outside_checked"] = outside_subset_check(ctx, rep, [(o, f) for o, f in fns
-                                                               if f"{o}:{f.__name__}" in stats["outside_subset"]])
-    if stats["encoded"] < 20:
+                                                               if f"{phase}{o}:{f.__name__}" in stats["outside_subset"]])
+    if stats["encoded"] < min_encoded:
         raise MachineryError(f"the encoder accepted only {stats['encoded']} functions")
-    cf = ctx.work / "oracle_cases.json"
+    cf = ctx.work / f"oracle_cases{phase.strip(':')}.json"
     cf.write_text(json.dumps(cases))
-    res = ctx.tlc("TranslateOracle.tla", "TranslateOracle.cfg", tag="oracle_eval", env={"CASE_FILE": str(cf)}, workers=1)
-    rep.add_tlc(res, "oracle: Run of the encoded shipped / test functions on the grid")
+    res = ctx.tlc("TranslateOracle.tla", "TranslateOracle.cfg", tag=f"oracle_eval{phase.strip(':')}", env={"CASE_FILE": str(cf)}, workers=1)
+    rep.add_tlc(res, f"oracle {phase}: Run of the encoded real functions on the grid")
     outs = {p["id"]: p["out"] for p in res.payloads}
     if set(outs) != set(meta):
         raise MachineryError(f"TLC evaluated {len(outs)} of {len(meta)} encoded functions")
@@ -393,10 +472,10 @@ def run_oracle(ctx: Ctx, rep: Report) -> None:
                     "pts": [[render.to_json_value(v) for v in p] for p in pts], "obs": obs}
             judged.append((case, cid, tag, names, expr, raw))
     if judged:
-        cf2 = ctx.work / "oracle_judge.json"
+        cf2 = ctx.work / f"oracle_judge{phase.strip(':')}.json"
         cf2.write_text(json.dumps([c for c, *_ in judged]))
-        res2 = ctx.tlc("TranslateOracle.tla", "TranslateOracle.cfg", tag="oracle_judge", env={"CASE_FILE": str(cf2)}, workers=1)
-        rep.add_tlc(res2, "oracle: translated expressions of real functions judged against Run")
+        res2 = ctx.tlc("TranslateOracle.tla", "TranslateOracle.cfg", tag=f"oracle_judge{phase.strip(':')}", env={"CASE_FILE": str(cf2)}, workers=1)
+        rep.add_tlc(res2, f"oracle {phase}: translated expressions of real functions judged against Run")
         verdicts = {p["id"]: p for p in res2.payloads}
         if len(verdicts) != len(judged):
             raise MachineryError(f"TLC judged {len(verdicts)} of {len(judged)} records")
@@ -431,7 +510,91 @@ def run_oracle(ctx: Ctx, rep: Report) -> None:
             else:
                 rep.traces += 1
                 stats["accepted"] += 1
+    return stats
+
+
+def run_oracle(ctx: Ctx, rep: Report) -> None:
+    stats = oracle_pass(ctx, rep, collect(ctx), "", 20)
+    # ---- history: translate (done above), re-bind module constants, translate again ------------------------
+    # every function of the two corpus modules has been translated once; a translator that remembers module
+    # constants across translations now disagrees with the function (CPython and the re-encoded AST use the new value)
+    olds = {}
+    for mn, binds in REBIND.items():
+        for c, v in binds.items():
+            olds[(mn, c)] = getattr(sys.modules[mn], c)
+            setattr(sys.modules[mn], c, v)
+    try:
+        stats["rebound_constants"] = oracle_pass(ctx, rep, corpus_functions(ctx), "rebound:", 10)
+    finally:
+        for (mn, c), v in olds.items():
+            setattr(sys.modules[mn], c, v)
+    stats["rebound_constants"].pop("outside_subset", None)
+    stats["known_fns"] = known_fns_check(ctx, rep)
     rep.notes["oracle"] = stats
+
+
+# ---------------------------------------------------------------------------------------------------
+# every row of mxlpy's KNOWN_FNS table, with symbolic and with constant arguments
+# ---------------------------------------------------------------------------------------------------
+KGRID = [-2.0, -0.5, 0.0, 0.5, 1.0, 2.0, 3.0]
+KCONST = {1: [(0.5,), (-1.5,), (2.5,)], 2: [(2.5, 1.5), (-1.5, 2.5), (2.0, 2.0), (7.5, -2.0)]}
+
+
+def _source_name(fn) -> str | None:
+    import builtins
+    import math
+
+    import numpy as np
+
+    nm = getattr(fn, "__name__", None)
+    for prefix, mod in (("", builtins), ("math.", math), ("np.", np)):
+        if nm and getattr(mod, nm, None) is fn:
+            return prefix + nm
+    for prefix, mod in (("math.", math), ("np.", np)):
+        for cand in dir(mod):
+            if getattr(mod, cand, None) is fn:
+                return prefix + cand
+    return None
+
+
+def known_fns_check(ctx: Ctx, rep: Report) -> dict:
+    """A module with one function per (row of KNOWN_FNS, arity, argument form); the table is read from the library.
+
+    Transcendental results cannot be decided by TLC, so CPython's value is the expected one (supplementary path).
+    With symbolic arguments the clean tree refuses every row (acceptable); with constant arguments the row is
+    applied at translation time.  A refusal is fine, a wrong value is a violation.
+    """
+    from mxlpy.meta import source_tools
+
+    lines = ["import math", "", "import numpy as np", "", ""]
+    names, rows, unnamed = [], 0, []
+    for j, fn in enumerate(source_tools.KNOWN_FNS):
+        src = _source_name(fn)
+        if src is None:
+            unnamed.append(repr(fn))
+            continue
+        rows += 1
+        for ar in (1, 2):
+            probe = [render.py_outcome(fn, list(c)) for c in KCONST[ar]]
+            if all(o["st"] != "ret" for o in probe):
+                continue          # not callable with that many floats (e.g. min(x), math.gcd(1.5, 2.5))
+            params = ["a", "b"][:ar]
+            fname = f"k{j}_{src.replace('.', '_')}_{ar}"
+            lines += [f"def {fname}_sym({', '.join(params)}):", f"    return {src}({', '.join(params)})", "", ""]
+            lines += [f"def {fname}_mix({', '.join(params)}):",
+                      f"    y = {src}({', '.join(p + ' * 2.0' for p in params)})", f"    return y - {params[-1]}", "", ""]
+            names += [f"{fname}_sym", f"{fname}_mix"]
+            for ci, c in enumerate(KCONST[ar]):
+                lines += [f"def {fname}_c{ci}(a):", f"    return a + {src}({', '.join(repr(x) for x in c)})", "", ""]
+                names.append(f"{fname}_c{ci}")
+    d = ctx.work / "oracle_mods"
+    render.write_module(d, "c06known", "\n".join(lines))
+    mod = render.load_module(d, "c06known")
+    st = outside_subset_check(ctx, rep, [("KNOWN_FNS", getattr(mod, n)) for n in names], grid=KGRID, what="known_fns_row")
+    st["rows"], st["rows_without_source_name"] = rows, unnamed
+    if rows < 40:
+        raise MachineryError(f"only {rows} rows of KNOWN_FNS could be rendered")
+    return st
 
 
 def replay(ctx: Ctx, doc: dict) -> int:
